@@ -67,6 +67,12 @@ def rule_queue(chk):
     ctx = chk.ctx
     init = _tw(chk, "__init__")
     qa, qtype, qcall = queue_attr(chk)
+    if qa is None:
+        for a, v in init.cls.attrs.items():
+            if isinstance(v, ast.Call) and any(t.kind == "ext" and str(t.ref).startswith("queue.") for t in ctx.cg.typer.resolve_call_in(init.module, None, v)):
+                chk.bad("C19.queue", "ThreadedWriter.%s:unbounded-FIFO" % a, chk.where(init.cls),
+                        "the queue is a class-level attribute shared by every ThreadedWriter: a stop sentinel or message of one writer is consumed by another's reader")
+                raise AnalysisError("ThreadedWriter queue is not per instance")
     chk.need(qa is not None, "ThreadedWriter.__init__: no queue attribute created from the queue module")
     bounded = False
     if qtype == "queue.Queue":
